@@ -129,7 +129,8 @@ def history_run(ctx, which, rs, flags, sc, dist, steps=None):
     NOW; for C01 (the sequence is a function of ruleset and flags) the stream is also compared with the one of the same files
     written to a fresh directory, and at the last step the loaded tables with those a fresh python process loads.
     steps: the recorded steps of a replay."""
-    vio = []
+    import time
+    vio, t0 = [], time.time()
     h = impl_next.History(sc)
     hg = None if steps is not None else impl_next.HistoryGen(ctx.rng, rs, flags)
     n = len(steps) if steps is not None else ctx.rng.choice([2, 3, 3, 4])
@@ -190,6 +191,7 @@ def history_run(ctx, which, rs, flags, sc, dist, steps=None):
                                 % (k, st.get("edit")), "replay": replay})
         if v:
             break
+    dist["history_seconds"] = round(dist.get("history_seconds", 0) + time.time() - t0, 2)
     return vio
 
 
